@@ -103,6 +103,20 @@ def _needs_quotes(text: str) -> bool:
     return not text or text[0] in '/#' or any(c in BARE_DISALLOWED for c in text)
 
 
+def _write_block(f: TextIO, block: Keyvalues, indent: str) -> None:
+    """Write a sub-block in the layout of Keyvalues.serialise(), but without escape sequences.
+
+    Material.parse() reads files with escapes disabled, so backslashes must be written as they are.
+    """
+    if block.has_children():
+        f.write(f'{indent}"{block.real_name}"\n{indent}\t{{\n')
+        for child in block:
+            _write_block(f, child, indent + '\t')
+        f.write(f'{indent}\t}}\n')
+    else:
+        f.write(f'{indent}"{block.real_name}" "{block.value}"\n')
+
+
 class Material(MutableMapping[str, str]):
     """Represents a material.
 
@@ -299,11 +313,11 @@ class Material(MutableMapping[str, str]):
                 value = f'"{value}"'
             f.write(f'\t{name} {value}\n')
         for block in self.blocks:
-            block.serialise(f, start_indent='\t')
+            _write_block(f, block, '\t')
         if self.proxies:
             f.write('\n\tProxies\n\t\t{\n')
             for block in self.proxies:
-                block.serialise(f, start_indent='\t\t')
+                _write_block(f, block, '\t\t')
             f.write('\t\t}\n')
         f.write('\t}\n')
 
